@@ -382,6 +382,10 @@ func (w *World) stateDigest(n *Node) string {
 			keys = append(keys, fmt.Sprintf("%s=%x", k, h[:6]))
 		}
 		sort.Strings(keys)
+		if w.cacheKeys == nil {
+			w.cacheKeys = map[int][2][]string{}
+		}
+		w.cacheKeys[n.Idx] = [2][]string{w.cacheKeys[n.Idx][1], keys} // the last two listings, for violation details
 		parts = append(parts, strings.Join(keys, ","))
 	}
 	parts = append(parts, strings.Join(n.Goss.PeerList(), ","))
@@ -390,6 +394,34 @@ func (w *World) stateDigest(n *Node) string {
 		parts[i] = fmt.Sprintf("%x", h[:5])
 	}
 	return strings.Join(parts, "|") // ledger | awaiting cache (while nothing can expire) | peers
+}
+
+// cacheDelta describes how the last two awaiting-cache listings of node n differ.
+func (w *World) cacheDelta(n int) string {
+	a, b := w.cacheKeys[n][0], w.cacheKeys[n][1]
+	in := func(xs []string, x string) bool {
+		for _, y := range xs {
+			if y == x {
+				return true
+			}
+		}
+		return false
+	}
+	var out []string
+	for _, x := range a {
+		if !in(b, x) {
+			out = append(out, "-"+x)
+		}
+	}
+	for _, x := range b {
+		if !in(a, x) {
+			out = append(out, "+"+x)
+		}
+	}
+	if len(out) > 6 {
+		out = out[:6]
+	}
+	return strings.Join(out, " ")
 }
 
 func stateDiff(a, b string) string {
@@ -455,6 +487,7 @@ func crashScenario(w *World, p *Plan, rec *Record) {
 		s := &shaper{w: w, r: r, idx: r.Uint64()}
 		before := w.stateDigest(n)
 		netMark := len(w.Net.Log)
+		quietBefore := w.Net.quiet()
 		callMark := len(w.AccCalls)
 		var resp proto.Message
 		var err error
@@ -504,7 +537,7 @@ func crashScenario(w *World, p *Plan, rec *Record) {
 		_ = resp
 		if err != nil && pn == "" && !strings.HasPrefix(c.name, "peer.") {
 			w.probe("c15-rejected-requests")
-			if after := w.stateDigest(n); after != before && !w.ledgerMovedLegitimately(n) && netMark == len(w.Net.Log) && callMark == len(w.AccCalls) {
+			if after := w.stateDigest(n); after != before && !w.ledgerMovedLegitimately(n) && quietBefore && w.Net.quiet() && netMark == len(w.Net.Log) && callMark == len(w.AccCalls) {
 				w.violate("C15", "state", "rejected-request-changed-state:"+c.name, n.Idx, "{%s} changed %s", desc, stateDiff(before, after))
 			}
 		}
